@@ -30,6 +30,7 @@ PROPERTY = "C12"
 LEVEL = "model_checking"
 CTL = S.CTL
 TOPO = ("0005", "000C")
+SYNC = f" I --- {CTL} --:------ {CTL} 1F09 003 FF0532"
 
 
 # ---------------------------------------------------------------------------------------------------------
@@ -85,6 +86,13 @@ def configs(quick: bool):
         if not zones and not d and not e:
             continue
         yield {"zones": zones, "dhw": dhw_cfg(d), "app": APP[e]}
+    # any subset of zones 00-0B (thorough: all 4096; quick: sizes 0-2 and 10-12), class and sensor kind rotating with the index
+    for mask in range(1, 4096):
+        n = bin(mask).count("1")
+        if quick and 2 < n < 10:
+            continue
+        idxs = [f"{i:02X}" for i in range(12) if mask >> i & 1]
+        yield {"zones": {z: zone_cfg(z, CLASSES[(int(z, 16) + n) % 4], ("34", "own", "22", "12", "03")[(int(z, 16) + mask) % 5], 1) for z in idxs}, "dhw": None, "app": None}
     # sweeps: every zone index alone; all twelve zones; the short 000C element layout; a zone without a sensor
     for i in range(12):
         yield {"zones": {f"{i:02X}": zone_cfg(f"{i:02X}", CLASSES[i % 4], ("34", "own", "22", "03")[i % 4], 1 + i % 3)}, "dhw": None, "app": None}
@@ -94,6 +102,9 @@ def configs(quick: bool):
             yield {"zones": {"01": zone_cfg("01", k, "34", n)}, "dhw": None, "app": None, "short_000c": True}
     for k in CLASSES:
         yield {"zones": {"02": zone_cfg("02", k, None, 1)}, "dhw": None, "app": None}
+    # the controller is first heard while the gateway is still starting (dongle handshake in progress)
+    for i in range(12):
+        yield {"zones": {f"{i:02X}": zone_cfg(f"{i:02X}", CLASSES[i % 4], ("34", "own", "22", "03")[i % 4], 1 + i % 3)}, "dhw": dhw_cfg(DHW_SUBSETS[i % 8]), "app": APP[(None, "bdr", "otb")[i % 3]], "first_heard": "during_start"}
 
 
 def facts_of_config(cfg: dict) -> tuple[set, set]:
@@ -156,6 +167,9 @@ class DiscWorld:
         self.topo_writes = 0
         self.fates: list[tuple] = []
         self.w.on_write = self._on_write
+        if params.get("first_heard") == "during_start":  # the controller's sync packet is heard during the dongle handshake
+            self.w.connect_delay = 0.6
+            self.w.early_frames = [SYNC]
         self.gwy = self.w.add_gateway(config={"disable_discovery": False, "enforce_known_list": False})
 
     def _deliver(self, frame: str) -> None:
@@ -163,8 +177,9 @@ class DiscWorld:
             self.w.rx(frame, settle=False)
 
     def _sample(self) -> None:
-        if not self.loop.dead:
-            self.samples.append((round(self.loop.time(), 2), frozenset(facts_of_schema(self.gwy.schema))))
+        gwy = getattr(self, "gwy", None) or (self.w.gwys[0] if self.w.gwys else None)  # (may be called while the gateway is still starting)
+        if not self.loop.dead and gwy is not None:
+            self.samples.append((round(self.loop.time(), 2), frozenset(facts_of_schema(gwy.schema))))
 
     def _on_write(self, tx, frame: str) -> None:
         loop = self.loop
@@ -201,15 +216,16 @@ class DiscWorld:
         p = self.params
         w = self.w
         # the controller's presence becomes known from its periodic sync broadcast
-        w.rx(f" I --- {CTL} --:------ {CTL} 1F09 003 FF0532")
-        t = 0.0
+        if p.get("first_heard") != "during_start":
+            w.rx(SYNC)
+        t = self.loop.time()
         for cp in p.get("checkpoints", (10.0, 60.0)) + (p["horizon"],):
             if cp > t:
                 self.loop.quiesce(cp)
                 t = cp
                 self._sample()
             if p.get("sync_every") and cp < p["horizon"]:
-                w.rx(f" I --- {CTL} --:------ {CTL} 1F09 003 FF0532")
+                w.rx(SYNC)
         obs = {
             "final": sorted(self.samples[-1][1]),
             "samples": [(t, sorted(s)) for t, s in _dedup(self.samples)],
@@ -288,6 +304,8 @@ def _cfg_task(args):
     res = []
     for cfg in chunk:
         params = {"cfg": cfg, "horizon": horizon, "fault_window": 0.0}
+        if cfg.get("first_heard"):
+            params["first_heard"] = cfg["first_heard"]
         _, obs = run_world(params)
         v = oracle(obs, params)
         res.append((X.digest(obs["final"]), len(obs["asked"]), obs["writes"], [(k, w, params) for k, w in v]))
@@ -386,7 +404,7 @@ def run(ctx) -> None:
         exhaustive=True,
         samples=total.samples[:2] + [{"configuration": _brief_cfg(cfgs[0])}],
         rule="A: full product of zone slot 00 {absent | class RAD/VAL/ELE/MIX x sensor thermostat/own TRV/controller/digital x 0,1,2,8 actuators} x slots 05, 0B "
-        "{absent | classes} x DHW part subsets x appliance {none, relay, OpenTherm bridge} + index sweeps 00-0B, all 12 zones, short 000C layout, sensorless zones: "
+        "{absent | classes} x DHW part subsets x appliance {none, relay, OpenTherm bridge} + every subset of zones 00-0B (quick: of size <= 2 or >= 10) + index sweeps 00-0B, all 12 zones, short 000C layout, sensorless zones: "
         "real Gateway with discovery on for 300 virtual s against the scripted controller, schema facts == configuration facts. B: every fate assignment with <= D "
         "deviations {transmission lost, reply lost, whole command lost, all replies lost} over the 0005/000C exchanges of the first round, horizon 25 h (49 h when the "
         "second round may also lose): final schema == configuration; every sample contains only stated facts and never loses one",
